@@ -295,7 +295,18 @@ class CFG:
                 if isinstance(it.context_expr, ast.Call) and U(it.context_expr.func) in ('asyncio.timeout', 'asyncio.timeout_at'):
                     continue
                 if isinstance(it.context_expr, ast.Call) and U(it.context_expr.func).split('.')[-1] == 'TaskGroup':
-                    exit_raises.add(ExcT('ExceptionGroup', False))  # the errors of the child tasks, re-raised as a group when the block is left
+                    # the errors of the child tasks are re-raised as a group when the block is left — if a child can fail at all with anything but cancellation
+                    tgv = it.optional_vars.id if isinstance(it.optional_vars, ast.Name) else None
+                    payloads = [x.args[0] for b in st.body for x in ast.walk(b) if isinstance(x, ast.Call) and isinstance(x.func, ast.Attribute) and x.func.attr == 'create_task'
+                                and isinstance(x.func.value, ast.Name) and x.func.value.id == tgv and x.args and isinstance(x.args[0], ast.Call)]
+                    H = self.fm.h
+                    can_fail = not payloads or tgv is None
+                    for pl in payloads:
+                        for t_ in self.fm.call_raises_as_awaited(pl, self.unit):
+                            if H.is_sub(t_.name, 'Exception') or (not t_.exact and H.is_sub('Exception', t_.name)):
+                                can_fail = True
+                    if can_fail:
+                        exit_raises.add(ExcT('ExceptionGroup', False))
                 lib_suspending = True
             if lib_suspending:
                 exit_raises.add(CANCEL)
